@@ -78,26 +78,39 @@ Fixpoint agree_ulim (u : ulim) (tr : list (dop * lk)) : bool :=
   | (DSync spec, _) :: rest => agree_ulim (usync u spec) rest
   end.
 
-(* the bucket's own view: a re-sync is a Resize to the values the new spec gives "tb" (a no-op when they are
-   unchanged: the schema is NOT reconfigured and its windows run across the re-sync) *)
-Fixpoint disp_ops (tr : list (dop * lk)) : option (list (op * bool)) :=
+(* the schema's own view.  [cur] = the token-bucket configuration in force for "tb" (None while the name is
+   of another type or absent: then nothing is owed or bounded).  A re-sync that leaves (qps, burst) unchanged
+   does not end a stretch; a change of the values, or a change of TYPE to token bucket, starts a new stretch
+   with a NEW (full) bucket, whatever limiter the name had before *)
+Fixpoint dsegments (cur : option cfg) (acc : list ev) (tr : list (dop * lk)) : list (cfg * list ev) :=
   match tr with
-  | [] => Some []
-  | (DTry _ t reached _, _) :: rest => option_map (cons (OTry t, reached)) (disp_ops rest)
+  | [] => match cur with Some c => [(c, rev acc)] | None => [] end
+  | (DTry _ t reached _, _) :: rest =>
+      match cur with
+      | Some _ => dsegments cur ({| etime := t; easked := 1; eok := reached |} :: acc) rest
+      | None => dsegments cur acc rest
+      end
   | (DSync spec, _) :: rest =>
-      match tb_cfg spec with
-      | Some c => option_map (cons (OResize (qps c) (burst c), true)) (disp_ops rest)
-      | None => None
+      match cur, tb_cfg spec with
+      | Some c, Some c2 =>
+          if ((qps c =? qps c2) && (burst c =? burst c2))%bool then dsegments cur acc rest
+          else (c, rev acc) :: dsegments (Some c2) [] rest
+      | Some c, None => (c, rev acc) :: dsegments None [] rest
+      | None, new => dsegments new [] rest
       end
   end.
 
-(* after every operation GetFlowSchema("tb") is a token-bucket limiter with the configured values *)
-Fixpoint lookup_ok (c : cfg) (tr : list (dop * lk)) : bool :=
+(* after every operation GetFlowSchema("tb") is a limiter of the configured type: a token bucket with the
+   configured values, or not a token bucket *)
+Fixpoint lookup_ok (cur : option cfg) (tr : list (dop * lk)) : bool :=
   match tr with
   | [] => true
   | (o, l) :: rest =>
-      let c' := match o with DSync spec => match tb_cfg spec with Some c2 => c2 | None => c end | _ => c end in
-      (lk_tb l && (lk_q l =? qps c') && (lk_b l =? burst c') && lookup_ok c' rest)%bool
+      let cur' := match o with DSync spec => tb_cfg spec | _ => cur end in
+      (match cur' with
+       | Some c => lk_tb l && (lk_q l =? qps c) && (lk_b l =? burst c)
+       | None => negb (lk_tb l)
+       end && lookup_ok cur' rest)%bool
   end.
 
 (* clause layout: agree, closed, open, lower, status, lookup *)
@@ -108,15 +121,11 @@ Definition eval (c : case) : list bool :=
       [ agree_ops (rtb_new q b) tr;
         all_segments closed_ok segs; all_segments open_ok segs; all_segments lower_ok segs; true; true ]
   | CDisp spec0 tr =>
-      match tb_cfg spec0, disp_ops tr with
-      | Some c0, Some ops =>
-          let segs := segments c0 [] ops in
-          [ agree_ulim (usync ulim_new spec0) tr;
-            all_segments closed_ok segs; all_segments open_ok segs; all_segments lower_ok segs;
-            forallb (fun x => match fst x with DTry _ _ r st => status_ok r st | _ => true end) tr;
-            lookup_ok c0 tr ]
-      | _, _ => [false; false; false; false; false; false]
-      end
+      let segs := dsegments (tb_cfg spec0) [] tr in
+      [ agree_ulim (usync ulim_new spec0) tr;
+        all_segments closed_ok segs; all_segments open_ok segs; all_segments lower_ok segs;
+        forallb (fun x => match fst x with DTry _ _ r st => status_ok r st | _ => true end) tr;
+        lookup_ok (tb_cfg spec0) tr ]
   | CConc q b calls =>
       let c := {| qps := q; burst := b |} in
       let ops := map (fun x => (OTry (snd (fst (fst x))), snd x)) calls in
